@@ -10,6 +10,7 @@ CONSTANTS
     ReadVariant = "tail"
     Emit = "none"
     Regs = {"rax", "rbx", "rcx", "rdx", "rdi", "rsi", "rbp", "rsp", "r8", "r9", "r10", "r11", "r12", "r13", "r14", "r15", "rip"}
+    InitMem = "pattern"
     DisVariant = "masked"
 SPECIFICATION SpecReg
 VIEW View
